@@ -96,7 +96,7 @@ def run(ck):
         key = "process:exit#%d:%s" % (i, x.kind)
         if x.kind == "backedge":
             continue
-        if x.kind == "err" or (x.kind == "return" and x.value[0] == "ctor" and x.value[1] == ERR):
+        if x.kind == "err" or (x.kind in ("return", "err") and x.value[0] == "ctor" and x.value[1] == ERR):
             v = x.value
             src = None
             if v[0] == "ctor" and v[1] == ERR and v[2] and v[2][0][0] == "payload" and is_adapter_call(v[2][0][1]):
